@@ -427,6 +427,7 @@ func (m *mutableStore) GetSegment(k string) *ldmodel.Segment         { return m.
 func snapshot(store *realStore, flag *ldmodel.FeatureFlag, ctx ldcontext.Context) string {
 	var sb strings.Builder
 	sb.WriteString(flagDumpJSON(flag))
+	sb.WriteString(fmt.Sprintf("%#v", *flag)) // every field, exported or not
 	keys := []string{}
 	for k := range store.flags {
 		keys = append(keys, k)
@@ -434,6 +435,7 @@ func snapshot(store *realStore, flag *ldmodel.FeatureFlag, ctx ldcontext.Context
 	sortStrings(keys)
 	for _, k := range keys {
 		sb.WriteString(flagDumpJSON(store.flags[k]))
+		sb.WriteString(fmt.Sprintf("%#v", *store.flags[k]))
 	}
 	keys = keys[:0]
 	for k := range store.segments {
@@ -442,6 +444,7 @@ func snapshot(store *realStore, flag *ldmodel.FeatureFlag, ctx ldcontext.Context
 	sortStrings(keys)
 	for _, k := range keys {
 		sb.WriteString(segDumpJSON(store.segments[k]))
+		sb.WriteString(fmt.Sprintf("%#v", *store.segments[k]))
 	}
 	sb.WriteString(canon(dumpCtx(ctx, "")))
 	sb.WriteString(fmt.Sprintf("%#v", ctx))
@@ -472,6 +475,16 @@ func checkC12(seed uint64, replayDir, corpusDir string) (map[string]any, int) {
 			var c *EvalCase
 			if prev != nil && r.chance(1, 4) {
 				c = cloneCase(prev) // the same call repeated
+			} else if prev != nil && r.chance(1, 2) {
+				// the same flag and context again, but the store has moved on: items replaced by
+				// other content under the same key (same or different version), deleted, re-added
+				fresh := genStream(pick(r, []string{"bigseg", "segments", "prereqs"}), r.fork(), "x")
+				c = cloneCase(prev)
+				c.ID = fmt.Sprintf("C12/%d/%d/%d", seed, h, s)
+				c.Store = mutateStore(r, &prev.Store, &fresh.Store)
+				gg := &gen{r: r.fork(), p: profiles["bigseg"]}
+				gg.ctxKeys = ctxKeysOf(&c.Ctx)
+				c.BS = gg.bigSegProvider(&c.Ctx, append(append([]WSegment{}, c.Store.Segments...), prev.Store.Segments...))
 			} else {
 				c = genStream(pick(r, []string{"wellformed", "prereqs", "bigseg", "segments", "malformed"}), r.fork(), fmt.Sprintf("C12/%d/%d/%d", seed, h, s))
 				if prev != nil && r.chance(1, 2) {
@@ -563,6 +576,9 @@ func mutateStore(r *rng, prev, next *WStore) WStore {
 			seen[f.Key] = true
 		case 1: // replace by the new version if there is one
 			if nf, ok := newF[f.Key]; ok {
+				if r.bool() { // deleted and re-added with the version counter restarted: same key AND version, other content
+					nf.Meta.Version = f.Meta.Version
+				}
 				out.Flags = append(out.Flags, nf)
 				seen[f.Key] = true
 			}
@@ -585,6 +601,18 @@ func mutateStore(r *rng, prev, next *WStore) WStore {
 			seenS[s.Key] = true
 		case 1:
 			if ns, ok := newS[s.Key]; ok {
+				if r.bool() {
+					ns.Version = s.Version
+				}
+				out.Segments = append(out.Segments, ns)
+				seenS[s.Key] = true
+			} else if r.bool() {
+				// same key and version, only the generation / lists differ
+				ns := s
+				if ns.Gen != nil {
+					ns.Gen = ip(*ns.Gen + 1)
+				}
+				ns.Inc, ns.Exc = ns.Exc, ns.Inc
 				out.Segments = append(out.Segments, ns)
 				seenS[s.Key] = true
 			}
